@@ -179,11 +179,40 @@ func runC14(c *Ctx) {
 		}
 		return false, "no guard on IO.Dispatched"
 	}
+	// bracket factories: helpers that only build and return the bracketing wrapper; the guard is then required at their call sites
+	bracketFactory := map[*ssa.Function]bool{}
+	for _, fn := range scope {
+		if fn.Parent() != nil {
+			continue
+		}
+		rets := returnsOf(fn)
+		all := len(rets) > 0
+		for _, r := range rets {
+			if len(r.Results) != 1 {
+				all = false
+				continue
+			}
+			mc, ok := strip(r.Results[0]).(*ssa.MakeClosure)
+			if !ok || !brackets[mc.Fn.(*ssa.Function)] {
+				all = false
+			}
+		}
+		if all {
+			bracketFactory[fn] = true
+		}
+	}
 	for _, fn := range scope {
 		eachInstr(fn, func(in ssa.Instruction) {
 			if mc, ok := in.(*ssa.MakeClosure); ok {
 				cf := mc.Fn.(*ssa.Function)
 				if !updates(cf) {
+					return
+				}
+				if bracketFactory[fn] {
+					for _, cs := range p.callers(fn) {
+						ok2, why := belowLimit(cs.(ssa.Instruction).Block())
+						c.check(ok2, cs.Parent(), "wrapper guard", cs.Pos(), "the inline path is taken only below the limit", "the bracketing wrapper (inline completion path, built by "+fn.Name()+") is not guarded by Dispatched < MaxCallbackDispatch: "+why)
+					}
 					return
 				}
 				ok2, why := belowLimit(in.Block())
@@ -239,6 +268,10 @@ func runC14(c *Ctx) {
 			}
 		}
 		switch x := v.(type) {
+		case *ssa.Call:
+			if callee := x.Call.StaticCallee(); callee != nil && bracketFactory[callee] {
+				return false
+			}
 		case *ssa.MakeClosure:
 			cf := x.Fn.(*ssa.Function)
 			if brackets[cf] {
